@@ -461,8 +461,8 @@ pub fn gen_foreign(rng: &mut Rng, o: &ForeignOpts, st: &mut Stats) -> Foreign {
     };
     file[0..127].copy_from_slice(&spec::encode_header(&h));
     st.bump(&format!("foreign_depth_{depth}"));
-    if o.multi_frame && o.icomp == 4 {
-        st.bump("foreign_multi_frame_zstd");
+    if o.multi_frame && o.icomp != 1 {
+        st.bump("foreign_encoder_variety");
     }
     if o.unknown_counts {
         st.bump("foreign_unknown_counts");
